@@ -92,7 +92,9 @@ def outerStr (f : Fmt) : Option OuterRes → String
   | some OuterRes.canceledExc => "outer canceled hv=1"
   | some OuterRes.noValue => "outer canceled hv=0"
 
-def runCase (hdr : List String) (body : List (List String)) : List String := Id.run do
+/-- one awaited operation (one `round` of the input); `nx` = the `_next` link carried over from the previous operation on
+the same helper object; returns the output lines and the link left behind (none = the run deadlocked) -/
+def runRound (hdr : List String) (body : List (List String)) (nx : Slot) : List String × Option Slot := Id.run do
   let adapterName := hdr[3]?.getD "cbawait"
   let adapter := parseAdapter adapterName
   let srcVoid := hdr[4]?.getD "int" == "void"
@@ -120,12 +122,12 @@ def runCase (hdr : List String) (body : List (List String)) : List String := Id.
   let cvb := if behav == "throw" then ConvB.throw 77 else if behav == "leave" then ConvB.leave else ConvB.ret
   -- one extra (unscheduled) destructor agent at index n: the controller destroys the promise after the run
   let cfg : Cfg := { adapter := adapter, n := n + 1, rk := rk, pre := pre, selfRes := selfRes, cvb := cvb, srcVoid := srcVoid, cbThrows := cbThrows }
-  let s0 := init cfg
+  let s0 := initWith cfg nx
   let s0 := if hasD then setPc s0 n Pc.done else s0
   -- `imm`: the factory returns an already resolved future that the harness cannot name: its slot is not traced
   let keep : Ev → Bool := fun e => !(isImm && isSlotOp e)
   let (s1, out, dead) := runSched cfg n f keep s0 sched #[] 100000
-  if dead then return (out.toList ++ ["deadlock", "end"])
+  if dead then return (out.toList ++ ["deadlock", "end"], none)
   let mut s := s1
   let mut lines := out
   for _ in [0:1000] do
@@ -136,7 +138,27 @@ def runCase (hdr : List String) (body : List (List String)) : List String := Id.
   lines := lines.push "promise-destroyed"
   if adapter == Adapter.conv then lines := lines.push (outerStr f s.outer)
   lines := lines.push s!"final cb={s.saw.length} conv={s.convIn.length} allocs={s.allocs} frees={s.frees}"
-  return (lines.toList ++ ["end"])
+  return (lines.toList, some s.nxt)
+
+/-- split the body at the `round` lines -/
+def splitRounds (body : List (List String)) : List (List (List String)) :=
+  let r := body.foldl (fun (acc : List (List (List String)) × List (List String)) w =>
+    if w == ["round"] then (acc.2.reverse :: acc.1, []) else (acc.1, w :: acc.2)) ([], [])
+  (r.2.reverse :: r.1).reverse
+
+def runCase (hdr : List String) (body : List (List String)) : List String := Id.run do
+  let mut out : List String := []
+  let mut nx := Slot.null
+  let mut first := true
+  for rd in splitRounds body do
+    if !first then out := out ++ ["round"]
+    first := false
+    let (ls, nx') := runRound hdr rd nx
+    out := out ++ ls
+    match nx' with
+    | none => return out          -- deadlock: `end` already printed
+    | some v => nx := v
+  return out ++ ["end"]
 
 partial def loop (lines : Array String) (i : Nat) (hdr : List String) (body : List (List String)) : IO Unit := do
   if h : i < lines.size then
